@@ -457,7 +457,12 @@ def element_text_lists_split_on_whitespace(ctx, rule):
                        f'{ci.name}.get_py_value_from_node splits the element text with {unparse(c)}, which is not every XML white '
                        f'space: a list wrapped over lines is read as items containing white space', fi=fi, node=c)
                 continue
-            if not (isinstance(c.func, ast.Attribute) and isinstance(c.func.value, ast.Attribute) and c.func.value.attr == 'text'):
+            recv = c.func.value if isinstance(c.func, ast.Attribute) else None
+            if isinstance(recv, ast.Name):
+                from engine.util import local_assignments as _la
+                vals_ = _la(fi.node).get(recv.id, [])
+                recv = next((v for v in vals_ if isinstance(v, ast.Attribute) and v.attr == 'text'), recv)
+            if not (isinstance(recv, ast.Attribute) and recv.attr == 'text'):
                 continue
             if isinstance(getattr(c, '_parent', None), ast.Assign) and isinstance(c._parent.targets[0], ast.Tuple):  # noqa: SLF001
                 continue   # prefix:localname of one QName, not a list
@@ -469,7 +474,7 @@ def element_text_lists_split_on_whitespace(ctx, rule):
                    f'{ci.name}.get_py_value_from_node splits the element text with {unparse(c)}: a list that a peer wrapped '
                    f'over lines (or separated by tabs / two blanks) is read as items containing white space or as empty items; '
                    f'scopes and types parsed from it match nothing', fi=fi, node=c)
-    ctx.floor(rule, n, 2, 'readers of list-valued element text')
+    ctx.floor(rule, n, 1, 'readers of list-valued element text')
 
 
 def update_from_other_is_total(ctx, rule):
